@@ -577,6 +577,34 @@ def d6(cx: Cx, ob: Ob) -> None:
                 pv = kw.get("pattern")
                 if pv is None or not any(y == c for y in subterms(pv)):
                     ob.violate(fn.qualname, fn.where, "from_shacl does not read the pattern into the Record", detail="pattern-role")
+                else:
+                    sc = ("call", ("builtin", "str"), (c,), ())
+                    accepted = (
+                        c,
+                        ("and", (c, sc)),
+                        ("ifexp", c, sc, ("const", None)),
+                        ("ifexp", ("cmp", "is not", c, ("const", None)), sc, ("const", None)),
+                        ("ifexp", ("cmp", "is", c, ("const", None)), ("const", None), sc),
+                        ("ifexp", ("not", c), ("const", None), sc),
+                    )
+                    if pv not in accepted:
+                        helper = pv[1][1] if op(pv) == "call" and op(pv[1]) == "func" else None
+                        hf = cx.model.functions.get(helper) if helper else None
+                        drops = False
+                        if hf is not None:
+                            hs = cx.summary(hf, ob.id)
+                            for rt, rctx in hs.returns():
+                                if is_const(rt, None) and any(g.kind == "except" for g in rctx.guards):
+                                    drops = True
+                        if drops:
+                            ob.violate(
+                                fn.qualname,
+                                fn.where,
+                                f"from_shacl passes the pattern through `{helper.rsplit('.', 1)[-1]}`, which returns None from an exception handler: patterns the helper cannot process (e.g. XSD regular expressions such as ^\\p{{Lu}}+$ that Python's re rejects) are written by write_shacl but silently dropped on reading",
+                                detail="pattern-dropped",
+                            )
+                        else:
+                            ob.undecide(f"from_shacl: pattern value `{show(pv)[:60]}` not recognised as the row's pattern unchanged")
                 if x[3][0][2]:
                     ob.violate(fn.qualname, fn.where, "from_shacl filters the declared prefixes", detail="filter")
     if not found:
@@ -588,3 +616,19 @@ def d7(cx: Cx, ob: Ob) -> None:
     from ..rules import open_args_agreement
 
     open_args_agreement(cx, ob, [f"{API}.write_extended_prefix_map", f"{API}.write_jsonld_context"], [f"{API}._prepare"], "JSON round trip")
+
+
+@obligation("C14-X8", "the Record model stores prefixes and URI prefixes verbatim: no pydantic string transformation (strip / case folding / length limits) in its model_config or field declarations", floor=1)
+def x8(cx: Cx, ob: Ob) -> None:
+    from ..rules import record_verbatim
+
+    record_verbatim(cx, ob)
+
+
+@obligation("C14-X9", "no function on the loading path (_prepare, the from_* / load_* family and what they call) that reads a file or URL is memoised: loading the same location again reads it again", floor=5)
+def x9(cx: Cx, ob: Ob) -> None:
+    from ..rules import memoised_io
+
+    ci = cx.model.cls(CONV, ob.id)
+    roots = [f"{API}._prepare"] + [m.qualname for m in ci.methods.values() if m.name.startswith("from_")] + [q for q in cx.model.functions if q.startswith(f"{API}.load_")]
+    memoised_io(cx, ob, roots)
